@@ -67,8 +67,9 @@ Inductive qcase :=
 (* hkl_vec_from_Q_vec(Q, UB = U*B by the kernel, R): returned vector; tolerance = c * kappa_inf(R U B) * 2^-53 *)
 | KHkl (q : vin) (u b r : min) (o : outcome) (c : Q)
 (* the same for a refused / non-finite outcome of a singular matrix *)
-(* split / join: h,k,l of hkl_elements_from_hkl_vec(v) and Q_vec_from_Q_elements(h,k,l) must reproduce v exactly *)
-| KSplit (v : list Q) (hkl : list Q) (rejoined : list Q).
+(* split / join: h,k,l of hkl_elements_from_hkl_vec(v) and Q_vec_from_Q_elements(h,k,l) must reproduce v exactly,
+   numbers and unit: units = unit of v, of h, k, l and of the rejoined vector (multiplier, dimension) *)
+| KSplit (v : list Q) (hkl : list Q) (rejoined : list Q) (units : list (Q * dims)).
 
 Section D.
 Variables h mn : Q.
@@ -158,8 +159,12 @@ Definition check (c : qcase) : string :=
                then "" else "residual" ++ tag
            | _ => ""
            end
-  | KSplit v hkl rejoined =>
-      if negb (forallb (fun p => Qeq_bool (fst p) (snd p)) (combine v hkl) && Nat.eqb (List.length hkl) 3) then "split-not-exact"
+  | KSplit v hkl rejoined units =>
+      if negb (match units with
+               | u0 :: rest => forallb (fun u => Qeq_bool (fst u) (fst u0) && deqb (snd u) (snd u0)) rest && Nat.eqb (List.length rest) 4
+               | [] => false
+               end) then "split-join-unit-changed"
+      else if negb (forallb (fun p => Qeq_bool (fst p) (snd p)) (combine v hkl) && Nat.eqb (List.length hkl) 3) then "split-not-exact"
       else if negb (forallb (fun p => Qeq_bool (fst p) (snd p)) (combine v rejoined) && Nat.eqb (List.length rejoined) 3) then "rejoin-not-exact"
       else ""
   end.
